@@ -124,6 +124,7 @@ def run(tier):
                 ck.cov['traces_validated_against_impl'] += 1
     scalar_and_message_legs(ck, rnd, tier)
     framing_leg(ck, tier)
+    padding_leg(ck)
     proof_leg(ck)
     stream_leg(ck, tier)
     emitted_leg(ck)
@@ -400,6 +401,50 @@ def dheat_leg(ck, tier):
             ck.cov['traces_validated_against_impl'] += len(sends)
             ck.nontrivial(('dheat', alg, elen))
     ck.notes.append('dheat leg: %d settings of the denial-of-service mode, packets decoded by the fake server' % len(scs))
+
+
+def padding_leg(ck):
+    """RFC 4253 section 6 allows 4 to 255 bytes of padding: a packet framed with any legal padding length - not only the minimal one the
+    tool itself uses - is read back as sent, and so is the packet behind it.  Name-lists holding empty names next to others survive
+    an encode / decode round trip and a KEXINIT carrying them re-encodes to the bytes received."""
+    from ssh_audit.ssh_socket import SSH_Socket
+    from ssh_audit.outputbuffer import OutputBuffer
+    from ssh_audit.readbuf import ReadBuf
+    from ssh_audit.writebuf import WriteBuf
+    for pad in range(4, 256):
+        ck.evaluated()
+        n = next(k for k in range(1, 9) if (k + pad + 5) % 8 == 0)
+        pl1 = bytes([20]) + bytes((7 * j + pad) & 0xff for j in range(n - 1))
+        pl2 = bytes([21])
+        pkt1 = wire.u32(len(pl1) + pad + 1) + bytes([pad]) + pl1 + bytes((j * 31 + 1) & 0xff for j in range(pad))
+        stream = pkt1 + wire.frame(pl2)
+        for segs in ([stream], [stream[:5], stream[5:]], [stream[:len(pkt1) - 1], stream[len(pkt1) - 1:]]):
+            s = SSH_Socket(OutputBuffer(), 'localhost', 22)
+            s._SSH_Socket__sock = _Seg(segs)
+            try:
+                got = [s.read_packet(2), s.read_packet(2)]
+            except BaseException as e:    # noqa
+                got = [('raised', repr(e))]
+            if got != [(pl1[0], pl1[1:]), (pl2[0], pl2[1:])]:
+                ck.violation('stream-read proto=2 padding=%s' % ('128-255' if pad >= 128 else '12-127' if pad >= 12 else '4-11'),
+                             'a packet with %d bytes of padding (and the packet behind it): read_packet returned %r' % (pad, [(g[0], g[1][:8]) for g in got]),
+                             {'padding': pad, 'stream': stream.hex()[:400]})
+                break
+        else:
+            ck.cov['traces_validated_against_impl'] += 1
+            ck.nontrivial(('padding', pad))
+    for names in (['a', ''], ['', 'a'], ['', ''], ['a', '', 'b'], ['', '', ''], ['curve25519-sha256', '', 'ext-info-s'], ['a', 'a', '']):
+        ck.evaluated()
+        enc = WriteBuf().write_list(names).write_flush()
+        want = wire.string(','.join(names).encode())
+        back = ReadBuf(want).read_list()
+        if enc != want:
+            ck.violation('list-encode empty-names', 'write_list(%r) gives %s, the name-list encoding is %s' % (names, enc.hex(), want.hex()), {'names': names})
+        elif back != names:
+            ck.violation('list-decode empty-names', 'read_list(%s) gives %r, expected %r' % (want.hex(), back, names), {'names': names})
+        else:
+            ck.cov['traces_validated_against_impl'] += 1
+            ck.nontrivial(('empty-names', tuple(names)))
 
 
 def proof_leg(ck):
